@@ -64,6 +64,7 @@ void zSetupSpace(void *work, int_t lwork, GlobalLU_t *Glu)
 	Glu->stack.size = Glu->stack.top2;
 	Glu->stack.array = (void *) work;
     }
+    SLU_VHOOK_MEM("M:MemSetup", Glu, "\"lwork\":%lld", (long long) lwork);
 }
 
 
@@ -72,6 +73,7 @@ void *zuser_malloc(int bytes, int which_end, GlobalLU_t *Glu)
 {
     void *buf;
     
+    if ( StackFull(bytes) ) SLU_VHOOK_MEM("M:UMalloc", Glu, "\"bytes\":%d,\"end\":%d,\"ok\":0,\"off\":0", bytes, which_end);
     if ( StackFull(bytes) ) return (NULL);
 
     if ( which_end == HEAD ) {
@@ -83,6 +85,7 @@ void *zuser_malloc(int bytes, int which_end, GlobalLU_t *Glu)
     }
     
     Glu->stack.used += bytes;
+    SLU_VHOOK_MEM("M:UMalloc", Glu, "\"bytes\":%d,\"end\":%d,\"ok\":1,\"off\":%lld", bytes, which_end, (long long)((char*)buf - (char*)Glu->stack.array));
     return buf;
 }
 
@@ -95,6 +98,7 @@ void zuser_free(int bytes, int which_end, GlobalLU_t *Glu)
 	Glu->stack.top2 += bytes;
     }
     Glu->stack.used -= bytes;
+    SLU_VHOOK_MEM("M:UFree", Glu, "\"bytes\":%d,\"end\":%d", bytes, which_end);
 }
 
 
@@ -248,6 +252,7 @@ zLUMemInit(fact_t fact, void *work, int_t lwork, int m, int n, int_t annz,
 	ucol  = (doublecomplex *) zexpand( &nzumax, UCOL, 0, 0, Glu );
 	lsub  = (int_t *) zexpand( &nzlmax, LSUB, 0, 0, Glu );
 	usub  = (int_t *) zexpand( &nzumax, USUB, 0, 1, Glu );
+	SLU_VHOOK_MEM("M:InitExpands", Glu, "\"ok\":[%d,%d,%d,%d],\"req\":[%lld,%lld,%lld]", lusup != NULL, ucol != NULL, lsub != NULL, usub != NULL, (long long) nzlumax, (long long) nzumax, (long long) nzlmax);
 
 	while ( !lusup || !ucol || !lsub || !usub ) {
 	    if ( Glu->MemModel == SYSTEM ) {
@@ -262,6 +267,7 @@ zLUMemInit(fact_t fact, void *work, int_t lwork, int m, int n, int_t annz,
 	    nzlumax /= 2;
 	    nzumax /= 2;
 	    nzlmax /= 2;
+	    SLU_VHOOK_MEM("M:InitRetry", Glu, "\"req\":[%lld,%lld,%lld],\"annz\":%lld", (long long) nzlumax, (long long) nzumax, (long long) nzlmax, (long long) annz);
 	    if ( nzlumax < annz ) {
 		printf("Not enough memory to perform factorization.\n");
 		return (zmemory_usage(nzlmax, nzumax, nzlumax, n) + n);
@@ -275,6 +281,7 @@ zLUMemInit(fact_t fact, void *work, int_t lwork, int m, int n, int_t annz,
 	    ucol  = (doublecomplex *) zexpand( &nzumax, UCOL, 0, 0, Glu );
 	    lsub  = (int_t *) zexpand( &nzlmax, LSUB, 0, 0, Glu );
 	    usub  = (int_t *) zexpand( &nzumax, USUB, 0, 1, Glu );
+	    SLU_VHOOK_MEM("M:InitExpands", Glu, "\"ok\":[%d,%d,%d,%d],\"req\":[%lld,%lld,%lld]", lusup != NULL, ucol != NULL, lsub != NULL, usub != NULL, (long long) nzlumax, (long long) nzumax, (long long) nzlmax);
 	}
 	
     } else {
@@ -325,6 +332,9 @@ zLUMemInit(fact_t fact, void *work, int_t lwork, int m, int n, int_t annz,
     Glu->nzlumax = nzlumax;
     
     info = zLUWorkInit(m, n, panel_size, iwork, dwork, Glu);
+    SLU_VHOOK_MEM("M:WorkInit", Glu, "\"ret\":%d,\"iwork\":%lld,\"dwork\":%lld", info,
+		  (long long)((Glu->MemModel == USER && *iwork) ? (char*)*iwork - (char*)Glu->stack.array : 0),
+		  (long long)((Glu->MemModel == USER && *dwork) ? (char*)*dwork - (char*)Glu->stack.array : 0));
     if ( info )
 	return ( info + zmemory_usage(nzlmax, nzumax, nzlumax, n) + n);
     
@@ -414,6 +424,7 @@ void zLUWorkFree(int *iwork, doublecomplex *dwork, GlobalLU_t *Glu)
 	Glu->stack.top2 = Glu->stack.size;
 /*	zStackCompress(Glu);  */
     }
+    SLU_VHOOK_MEM("M:WorkFree", Glu, "\"x\":0");
     
     SUPERLU_FREE (Glu->expanders);	
     Glu->expanders = NULL;
@@ -445,6 +456,7 @@ zLUMemXpand(int jcol,
     	new_mem = zexpand(maxlen, mem_type, next, 1, Glu);
     else
 	new_mem = zexpand(maxlen, mem_type, next, 0, Glu);
+    SLU_VHOOK_MEM("M:Xpand", Glu, "\"jcol\":%d,\"next\":%lld,\"type\":%d,\"maxlen\":%lld,\"ok\":%d", jcol, (long long) next, (int) mem_type, (long long) *maxlen, new_mem != NULL);
     
     if ( !new_mem ) {
 	int_t    nzlmax  = Glu->nzlmax;
@@ -508,6 +520,7 @@ void
     ExpHeader *expanders = Glu->expanders; /* Array of 4 types of memory */
 
     alpha = EXPAND;
+    SLU_VHOOK_MEM("M:ExpandBegin", Glu, "\"type\":%d,\"prev_len\":%lld,\"len_to_copy\":%lld,\"keep_prev\":%d", (int) type, (long long) *prev_len, (long long) len_to_copy, keep_prev);
 
     if ( Glu->num_expansions == 0 || keep_prev ) {
         /* First time allocate requested */
@@ -613,6 +626,7 @@ void
     expanders[type].size = new_len;
     *prev_len = new_len;
     if ( Glu->num_expansions ) ++Glu->num_expansions;
+    SLU_VHOOK_MEM("M:Expand", Glu, "\"type\":%d,\"new_len\":%lld,\"keep_prev\":%d,\"ok\":%d", (int) type, (long long) new_len, keep_prev, expanders[type].mem != NULL);
     
     return (void *) expanders[type].mem;
     
